@@ -22,8 +22,10 @@ def sample_env(ctx, terms, rng, sampler=None, lo=-2.0, hi=2.0):
   for k, (y, a) in ctx.sqrts.items():
     defs.add(y.decl().name())
   for k, (s, c, a) in ctx.trig.items():
-    defs.add(s.decl().name())
-    defs.add(c.decl().name())
+    if z3.is_const(s) and z3.is_const(c):
+      defs.add(s.decl().name())
+      defs.add(c.decl().name())
+  defs.update(ctx.tdefs.keys())
   for k, (v, nm, xs) in ctx.uf.items():
     defs.add(v.decl().name())
   for nm, t in fv.items():
